@@ -148,14 +148,17 @@ def run_tlc(
     finished = ("Model checking completed. No error has been found" in raw
                 or (simulate is not None and "Error:" not in raw and p.returncode == 0))
     if not finished:
-        tail = "\n".join(raw.splitlines()[-40:])
+        lines = [ln for ln in raw.splitlines() if not ln.lstrip().startswith(("|", "line ")) and not ln.startswith(("<", "Parsing", "Semantic", "Linting"))]
+        errs = [i for i, ln in enumerate(lines) if ln.startswith("Error:")]
+        start = errs[0] if errs else max(0, len(lines) - 40)
+        tail = "\n".join(lines[start:start + 40])
         raise MachineryError(f"TLC did not complete on {module}/{cfg} (rc={p.returncode}):\n{tail}")
     r.ok = True
     return r
 
 
 def validate_traces(module: str, cfg: str, records: list[dict], *, shards: int = 16,
-                    tag: str = "trace", timeout: int = 1800, heap: str = "3g") -> tuple[list[dict], int, float]:
+                    tag: str = "trace", timeout: int = 1800, heap: str = "3g", env: dict | None = None) -> tuple[list[dict], int, float]:
     """Write records as ndjson shards, run the TLC trace validator on each shard (one JVM per
     shard, single worker), return (verdict lines, records consumed, wall seconds).
 
@@ -179,7 +182,7 @@ def validate_traces(module: str, cfg: str, records: list[dict], *, shards: int =
         files.append(f)
 
     def one(i):
-        return run_tlc(module, cfg, workers=1, env={"TRACE_FILE": str(files[i])},
+        return run_tlc(module, cfg, workers=1, env={"TRACE_FILE": str(files[i]), **(env or {})},
                        timeout=timeout, tag=f"{tag}-s{i}-{os.getpid()}", heap=heap)
 
     t0 = time.time()
